@@ -3,27 +3,27 @@ import SignaloModel.Proofs.RegistryProofs
 /-!
 # C12 — Reset returns every filter to its freshly constructed behaviour
 
-Property theorems for C12 (statements are printed by `#check`, axioms by `#check @Registry.config_filter
-#check @Registry.config_run
-#check @Registry.reset_after_history
-#check @MedianL.step_length
-#print axioms`;
-`bin/check C12` re-elaborates this file on every run and audits the axiom lists).
+The property theorems for C12: `#check` prints each statement, `#print axioms` its axioms;
+`bin/check C12` re-elaborates this file on every run and audits the axiom lists.
 -/
 open SignaloModel
 
+#check @Registry.config_filter
+#check @Registry.config_run
+#check @Registry.reset_after_history
+#check @MedianL.step_length
 #check @Registry.reset_eq_init
 #check @Registry.config_init
 #check @Registry.config_reset
 #check @Registry.reset_reset
 #check @Registry.run_reset_eq_fresh
 
+#print axioms Registry.config_filter
+#print axioms Registry.config_run
+#print axioms Registry.reset_after_history
+#print axioms MedianL.step_length
 #print axioms Registry.reset_eq_init
 #print axioms Registry.config_init
 #print axioms Registry.config_reset
 #print axioms Registry.reset_reset
 #print axioms Registry.run_reset_eq_fresh
-#print axioms Registry.config_filter
-#print axioms Registry.config_run
-#print axioms Registry.reset_after_history
-#print axioms MedianL.step_length
